@@ -46,6 +46,17 @@ type c23nStart struct {
 func TestVerif_C23_NodeLayer(t *testing.T) {
 	r := verifkit.Start(t, "C23", "node-layer")
 	defer r.Finish()
+	c23NodeLayerWorkload(t, r, r.N(400, 20000))
+}
+
+// TestVerif_C23_NodeLayerRace: the same workload under the race detector (the layer fans a window out to one goroutine per wallet)
+func TestVerif_C23_NodeLayerRace(t *testing.T) {
+	r := verifkit.Start(t, "C23", "node-layer-race")
+	defer r.Finish()
+	c23NodeLayerWorkload(t, r, r.N(80, 2000))
+}
+
+func c23NodeLayerWorkload(t *testing.T, r *verifkit.Run, n int) {
 	r.SetRule("the real runCoordinationLayer of a node controlling 2-5 wallets (real wallet registry) is fed a PRNG block stream (same generator as the watcher part: walks around window boundaries with repeats, gaps and regressions) over an unbuffered channel; the coordination procedure is a stub recording (wallet, window). Oracle: every start is for a controlled wallet and a positive multiple of 900; no (wallet, window) pair is started twice; a window that was started for some wallet is started for every controlled wallet (checked after the starts have settled; missing ones after the watchdog are inconclusive, not violations). Non-trivial: at least one window was started and the node controls at least two wallets.")
 	shareData, err := tecdsatest.LoadPrivateKeyShareTestFixtures(1)
 	if err != nil || len(shareData) == 0 {
@@ -54,7 +65,6 @@ func TestVerif_C23_NodeLayer(t *testing.T) {
 	}
 	share := tecdsa.NewPrivateKeyShare(shareData[0])
 
-	n := r.N(400, 20000)
 	var starts, windows int64
 	var mu sync.Mutex
 	verifkit.Parallel(n, 8, func(i int) {
